@@ -315,9 +315,41 @@ func (f *FuncCFG) preds() map[*cfg.Block][]*cfg.Block {
 	return m
 }
 
-// ErrEdges finds the branch edges that test the error result of `call` (assigned to some
-// variable) against nil: success = edges taken when the error is nil, failure = non-nil.
-func (f *FuncCFG) ErrEdges(call *ast.CallExpr) (success, failure []Edge) {
+// fact: an atomic condition known to hold (Pol=true) or not to hold (Pol=false) on an edge.
+type fact struct {
+	Atom ast.Expr
+	Pol  bool
+}
+
+// factsOn decomposes a branch condition: on the TRUE edge of A && B both hold, on the FALSE
+// edge of A || B neither holds; negations flip. go/cfg does not split short-circuit
+// operators, so this recovers the guard forms `if a || b { return }`.
+func factsOn(cond ast.Expr, branch bool) []fact {
+	e := ast.Unparen(cond)
+	switch x := e.(type) {
+	case *ast.UnaryExpr:
+		if x.Op == token.NOT {
+			return factsOn(x.X, !branch)
+		}
+	case *ast.BinaryExpr:
+		if x.Op == token.LAND {
+			if branch {
+				return append(factsOn(x.X, true), factsOn(x.Y, true)...)
+			}
+			return nil
+		}
+		if x.Op == token.LOR {
+			if !branch {
+				return append(factsOn(x.X, false), factsOn(x.Y, false)...)
+			}
+			return nil
+		}
+	}
+	return []fact{{e, branch}}
+}
+
+// forEachEdgeFact calls fn for every (edge, fact) pair of the function.
+func (f *FuncCFG) forEachEdgeFact(fn func(e Edge, b *cfg.Block, ft fact)) {
 	for _, b := range f.G.Blocks {
 		if !b.Live {
 			continue
@@ -326,27 +358,36 @@ func (f *FuncCFG) ErrEdges(call *ast.CallExpr) (success, failure []Edge) {
 		if c == nil {
 			continue
 		}
-		x, nonNilOnTrue, ok := nilTest(f.Info, c)
+		for si, br := range []bool{true, false} {
+			for _, ft := range factsOn(c, br) {
+				fn(Edge{b, si}, b, ft)
+			}
+		}
+	}
+}
+
+// ErrEdges finds the branch edges that test the error result of `call` (assigned to some
+// variable) against nil: success = edges taken when the error is nil, failure = non-nil.
+func (f *FuncCFG) ErrEdges(call *ast.CallExpr) (success, failure []Edge) {
+	f.forEachEdgeFact(func(e Edge, b *cfg.Block, ft fact) {
+		x, nonNilOnTrue, ok := nilTest(f.Info, ft.Atom)
 		if !ok {
-			continue
+			return
 		}
 		v := objOfIdent(f.Info, x)
 		if v == nil {
-			continue
+			return
 		}
 		as, found := f.lastAssignBefore(b, len(b.Nodes)-1, v)
 		if !found || len(as.Rhs) != 1 || ast.Unparen(as.Rhs[0]) != ast.Expr(call) {
-			continue
+			return
 		}
-		t, fl := Edge{b, 0}, Edge{b, 1}
-		if nonNilOnTrue {
-			failure = append(failure, t)
-			success = append(success, fl)
+		if nonNilOnTrue == ft.Pol {
+			failure = append(failure, e)
 		} else {
-			success = append(success, t)
-			failure = append(failure, fl)
+			success = append(success, e)
 		}
-	}
+	})
 	return
 }
 
@@ -422,38 +463,19 @@ func fieldSel(info *types.Info, e ast.Expr, field string) bool {
 	return sel != nil && sel.Kind() == types.FieldVal
 }
 
-// CondEdges returns the edges (From,Succ) of all branch blocks whose condition matches:
-// match returns (ok, onTrue) where onTrue says whether the TRUE edge is the one wanted.
-// Negations (!cond) are unwrapped before matching.
+// CondEdges returns the edges on which an atomic condition matching `match` is known to be
+// true (trueEdges) or false (falseEdges); negations and &&/|| are decomposed.
 func (f *FuncCFG) CondEdges(match func(cond ast.Expr) bool) (trueEdges, falseEdges []Edge) {
-	for _, b := range f.G.Blocks {
-		if !b.Live {
-			continue
+	f.forEachEdgeFact(func(e Edge, b *cfg.Block, ft fact) {
+		if !match(ft.Atom) {
+			return
 		}
-		c := condOf(b)
-		if c == nil {
-			continue
+		if ft.Pol {
+			trueEdges = append(trueEdges, e)
+		} else {
+			falseEdges = append(falseEdges, e)
 		}
-		neg := false
-		e := ast.Unparen(c)
-		for {
-			if u, ok := e.(*ast.UnaryExpr); ok && u.Op == token.NOT {
-				neg = !neg
-				e = ast.Unparen(u.X)
-				continue
-			}
-			break
-		}
-		if !match(e) {
-			continue
-		}
-		t, fl := Edge{b, 0}, Edge{b, 1}
-		if neg {
-			t, fl = fl, t
-		}
-		trueEdges = append(trueEdges, t)
-		falseEdges = append(falseEdges, fl)
-	}
+	})
 	return
 }
 
@@ -501,6 +523,40 @@ func definingCall(info *types.Info, body ast.Node, id ast.Expr) *ast.CallExpr {
 	})
 	if n == 1 && len(calls) == 1 {
 		return calls[0]
+	}
+	return nil
+}
+
+// ReachingCall: the call whose result was most recently assigned to the variable `id` before
+// the branch condition containing `at` is evaluated (flow-sensitive along single-predecessor
+// chains). nil if unknown.
+func (f *FuncCFG) ReachingCall(at ast.Node, id ast.Expr) *ast.CallExpr {
+	v := objOfIdent(f.Info, id)
+	if v == nil {
+		return nil
+	}
+	for _, b := range f.G.Blocks {
+		if !b.Live {
+			continue
+		}
+		for i, n := range b.Nodes {
+			hit := false
+			inspectNoLit(n, func(c ast.Node) bool {
+				if c == at {
+					hit = true
+				}
+				return !hit
+			})
+			if !hit {
+				continue
+			}
+			as, found := f.lastAssignBefore(b, i, v)
+			if !found || len(as.Rhs) != 1 {
+				return nil
+			}
+			c, _ := ast.Unparen(as.Rhs[0]).(*ast.CallExpr)
+			return c
+		}
 	}
 	return nil
 }
